@@ -546,25 +546,32 @@ Qed.
 Theorem rotate_rho_fun user basis f :
   rotate_rho ROps user basis (rho_mat (length basis) f)
   = let us := map (lk user) basis in
-    rho_mat (length basis) (fun s t => dense_fun us (fun b => conj (dense_fun us (fun a => f a b) t)) s).
+    rho_mat (length basis) (fun s t => conj (dense_fun us (fun b => conj (dense_fun us (fun a => f a b) s)) t)).
 Proof.
   cbv zeta. unfold rotate_rho. cbv zeta. set (us := map (lk user) basis).
   replace (length basis) with (length us) by apply map_length.
-  rewrite kron_rows_rho_mat, conj_transpose_rho_mat, kron_rows_rho_mat. reflexivity.
+  rewrite kron_rows_rho_mat, conj_transpose_rho_mat, kron_rows_rho_mat, conj_transpose_rho_mat. reflexivity.
 Qed.
 
 Definition hermitian_fun (n : nat) (f : bits -> bits -> cx) : Prop :=
   forall a b, length a = n -> length b = n -> f b a = conj (f a b).
 
+Lemma cx_aux2b (k x : cx) : conj (k *c conj x) = conj k *c x. Proof. cx_ring. Qed.
+Lemma cx_aux2c (k l x : cx) : conj k *c (l *c x) = l *c (x *c conj k). Proof. cx_ring. Qed.
+
+(* no hypothesis on rho: every complex matrix (fix 209e65c; before it, only Hermitian ones) *)
 Theorem rotate_rho_is_UrhoUdag user basis f :
-  hermitian_fun (length basis) f ->
   rotate_rho ROps user basis (rho_mat (length basis) f)
   = rho_mat (length basis) (UrhoUdag_fun (map (lk user) basis) f).
 Proof.
-  intros Hf. rewrite rotate_rho_fun. cbv zeta. apply rho_mat_ext. intros s t Hs Ht.
-  rewrite UrhoUdag_alt. unfold dense_fun. rewrite map_length.
-  apply csum_bits_ext. intros a Ha. f_equal. f_equal.
-  apply csum_bits_ext. intros b Hb. f_equal. apply Hf; assumption.
+  rewrite rotate_rho_fun. cbv zeta. apply rho_mat_ext. intros s t Hs Ht.
+  unfold UrhoUdag_fun, dense_fun. rewrite map_length.
+  rewrite csum_bits_conj.
+  transitivity (csum_bits (length basis) (fun b => csum_bits (length basis) (fun a =>
+     kron_entry ROps (map (lk user) basis) s a *c (f a b *c conj (kron_entry ROps (map (lk user) basis) t b))))).
+  - apply csum_bits_ext; intros b _. rewrite cx_aux2b, <- csum_bits_cmul_l.
+    apply csum_bits_ext; intros a _. apply cx_aux2c.
+  - rewrite csum_bits_swap. apply csum_bits_ext; intros a _. rewrite csum_bits_cmul_l. reflexivity.
 Qed.
 
 (* every well-shaped array is the matrix of the function reading it *)
@@ -596,21 +603,19 @@ Definition hermitian_arr (arr : list (list cx)) : Prop :=
 (* explicit arrays: rotate_rho = U rho U^dagger entrywise, and the fast path reads its diagonal *)
 Theorem rotate_rho_explicit user basis (arr : list (list cx)) :
   length arr = (2 ^ length basis)%nat -> Forall (fun row => length row = (2 ^ length basis)%nat) arr ->
-  hermitian_arr arr ->
   rotate_rho ROps user basis arr = rho_mat (length basis) (UrhoUdag_fun (map (lk user) basis) (mat_fun arr)).
 Proof.
-  intros Ha Hr Hh. rewrite <- (rho_array_as_fun _ arr Ha Hr) at 1.
-  apply rotate_rho_is_UrhoUdag. intros a b _ _. unfold rho_of_array. apply Hh.
+  intros Ha Hr. rewrite <- (rho_array_as_fun _ arr Ha Hr) at 1.
+  apply rotate_rho_is_UrhoUdag.
 Qed.
 
 Theorem rho_probs_fastpath_explicit user basis (arr : list (list cx)) states :
   length arr = (2 ^ length basis)%nat -> Forall (fun row => length row = (2 ^ length basis)%nat) arr ->
-  hermitian_arr arr ->
   Forall (fun s => length s = length basis) states ->
   rotate_rho_probs ROps user basis (mat_fun arr) states
   = map (fun s => fst (mat_fun (rotate_rho ROps user basis arr) s s)) states.
 Proof.
-  intros Ha Hr Hh Hs. rewrite rho_probs_fastpath_batch by exact Hs.
+  intros Ha Hr Hs. rewrite rho_probs_fastpath_batch by exact Hs.
   rewrite rotate_rho_explicit by assumption.
   apply map_ext_in. intros s Hin. rewrite Forall_forall in Hs. specialize (Hs s Hin).
   rewrite mat_fun_rho_mat by exact Hs. reflexivity.
@@ -969,7 +974,7 @@ Theorem rotate_rho_index_spec user basis (rho : list (list cx)) :
 Proof.
   intros H. unfold rotate_rho_index, rotate_rho. cbv zeta. rewrite map_length, H, Nat.eqb_refl.
   rewrite (kron_rows_index_eq _ rho) by (rewrite map_length; exact H).
-  rewrite kron_rows_index_eq; [reflexivity|].
+  f_equal. f_equal. rewrite kron_rows_index_eq; [reflexivity|].
   unfold conj_transpose. rewrite map_length. unfold transpose_c. rewrite map_length, seq_length, kron_rows_length, map_length. exact H.
 Qed.
 
